@@ -18,6 +18,7 @@ CONSTANTS
   AllowDrop = FALSE
   AllowBnShare = TRUE
   PlainOps = {"relu", "pool", "flat", "add"}
+  Biases = {TRUE, FALSE}
   AllowFindings = TRUE
   MaxHist = 1
 VIEW ViewNoHist
